@@ -24,5 +24,12 @@ META = {
     "C12": dict(level="other", explanation=WKD_EXPL, assumptions=GROUP_ASSUME),
     "C13": dict(level="other", explanation=WKD_EXPL, assumptions=GROUP_ASSUME),
     "C14": dict(level="other", explanation=WKD_EXPL, assumptions=GROUP_ASSUME),
+    "C06": dict(level="proof", assumptions=GROUP_ASSUME + [
+        "telescoping lemma (paper): scalar = c_0, c_j = 2 c_{j+1} + d_j (proved per iteration, no wrap), c_n = 0  ==>  scalar = sum d_j 2^j",
+        "Horner lemma (paper): acc' = 2 acc + (digit contribution) per iteration (proved for every digit and every accumulator value)  ==>  acc_final = (sum digits 2^j) * P",
+        "G1::endomorphism acts as [lambda] and the twisted Frobenius as [q] = [x] on the order-r subgroups (CM / Frobenius theory; the constants' closed facts are checked)",
+        "integer contracts of BigInt::multiply (exact product) and BigInt::divide_std_dword<|x|> (a = q d + rem) are ASSUMED in the decomposition units (not yet enforced by a BV unit)",
+        "loop-cut representative index: the digit loops are checked at one representative position i; every other digit cell is poisoned, so any other access would be reported",
+        "termination of rejection / retry loops is not verified"]),
     "C16": dict(level="proof", assumptions=GROUP_ASSUME + ["Encoding::encode and Fq12::write_big_endian are injective byte encodings of the group element (C09, C04)"]),
 }
